@@ -624,9 +624,11 @@ Proof.
     destruct (marker_op_shape _ _ _ _ Hd H) as (m' & Hm & Hst & Hne). subst st'.
     cbn [with_m with_disc p_disc p_doc_ok p_m p_tokens p_index p_inited p_current].
     split; [intros E; apply andb_true_iff in E; apply E|]. split; [auto|]. split.
-    + intros L E. apply andb_true_iff in E. destruct E as [E1 E2]. eapply exec_dop_level; eauto. apply L. exact E1.
-    + intros I E K. apply andb_true_iff in E. destruct E as [E1 E2]. destruct (I E1 K) as [A B C D (a & F1 & F2)].
-      constructor; cbn [p_tokens p_index p_inited p_current p_m]; auto.
+    + intros L E. cbn [with_m with_disc p_disc p_m] in *. apply andb_true_iff in E. destruct E as [E1 E2].
+      unfold lvl_ok. eapply exec_dop_level; eauto. apply L. exact E1.
+    + intros I E K. cbn [with_m with_disc p_disc p_doc_ok p_m] in *. apply andb_true_iff in E. destruct E as [E1 E2].
+      destruct (I E1 K) as [A B C D (a & F1 & F2)].
+      constructor; cbn [with_m with_disc p_tokens p_index p_inited p_current p_m]; auto.
       exists a. split; [exact F1|]. rewrite (exec_dop_tokens _ _ _ _ Hm).
       destruct d; rewrite ?app_nil_r; try exact F2. exfalso. eapply Hne; reflexivity.
   - destruct o; cbn [op_as_dop] in Hd; try discriminate; unfold exec_op in H.
